@@ -1,10 +1,10 @@
 package main
 
 import (
-	"strconv"
 	"fmt"
 	"go/constant"
 	"go/types"
+	"strconv"
 	"strings"
 
 	"golang.org/x/tools/go/ssa"
@@ -140,9 +140,13 @@ func c05Rules(p *Prog, r *Result) *RuleSet {
 			// http.Transport
 			isNil("sess-nil", "no session was given (plaintext phase)", sessParam),
 			errNil("cli-encrypt-ok", "Session.Encrypt of the outgoing message returned no error", named("fdo/kex.Session.Encrypt"),
-				func(m *Matcher, _ ssa.CallInstruction, args []ssa.Value) bool { return len(args) == 3 && sessParam(m, args[0]) }),
+				func(m *Matcher, _ ssa.CallInstruction, args []ssa.Value) bool {
+					return len(args) == 3 && sessParam(m, args[0])
+				}),
 			errNil("cli-decrypt-ok", "Session.Decrypt of the response body returned no error", named("fdo/kex.Session.Decrypt"),
-				func(m *Matcher, _ ssa.CallInstruction, args []ssa.Value) bool { return len(args) == 3 && sessParam(m, args[0]) }),
+				func(m *Matcher, _ ssa.CallInstruction, args []ssa.Value) bool {
+					return len(args) == 3 && sessParam(m, args[0])
+				}),
 			geHi("resp-is-error", func(m *Matcher, v ssa.Value) bool { return v.Type().Underlying().String() == "uint8" }),
 			// SessionCrypter.Decrypt
 			AtomDef{Name: "macalg-zero", Doc: "the negotiated suite has no MAC algorithm (AEAD)", Edge: func(m *Matcher, pd Pred, holds bool) bool {
